@@ -53,12 +53,12 @@ def normalise_pair_vars(sym):
 
 def find_calls(sym, name_pred: Callable[[str], bool], out: list, depth: int = 0) -> None:
     """Collect ('call', name, args...) sub-terms whose name satisfies the predicate (outermost first)."""
-    if sym is None or not isinstance(sym, tuple) or depth > 80:
+    if sym is None or not isinstance(sym, tuple) or not sym or depth > 80:
         return
     if sym and sym[0] == "call" and isinstance(sym[1], str) and name_pred(sym[1]):
         out.append(sym)
         return
-    if sym and sym[0] in ("in", "rd", "elem", "const", "param", "lenterm", "len", "idx"):
+    if sym and sym[0] in ("in", "rd", "elem", "const", "param", "lenterm", "len", "idx", "opq"):
         return
     for a in sym[1:]:
         if isinstance(a, tuple):
